@@ -136,7 +136,7 @@ Proof.
   { pose proof (sections_follow_plan now k r) as P. subst r.
     destruct gete;
       cbn [method_of locked_model per_key_read shape_plan req_gets mode_write option_map] in P;
-      injection P as P; rewrite <- P; unfold plan_sections; rewrite map_map; reflexivity. }
+      cbv iota; injection P as P; rewrite <- P; unfold plan_sections; rewrite map_map; reflexivity. }
   assert (Hk : map fst (sub_gets gete items no ne) = map gi_key items).
   { unfold sub_gets, enumerate. rewrite map_map. cbn [fst].
     rewrite <- (map_map snd gi_key). f_equal.
